@@ -3,7 +3,9 @@
    regenerated from the live NVSubroutineTranspiler on every run; the theorems hold
    for every decomposition table, here they are instantiated at the regenerated one. *)
 From Coq Require Import ZArith List Bool String.
-From NQ Require Import Nv.Transpile Nv.TranspileCheck Proofs.TranspileProofs.
+From NQ Require Import Base.Cyclo Base.QMat Nv.NvSem Proofs.QMatProofs.
+From Gen Require Import Gen_NvDecomp.
+From NQ Require Import Nv.Transpile Nv.TranspileCheck Nv.QAct Proofs.TranspileProofs Proofs.QActProofs.
 From Gen Require Import Gen_NvBlocks.
 Import ListNotations.
 Open Scope Z_scope.
@@ -119,6 +121,107 @@ Proof.
   exact (transpile_simulates_quantum QS qeq apply_ev H1 H2 H3 env (cfg debug hw)).
 Qed.
 
+(* ---- block soundness DISCHARGED from C07's regenerated rows.  Gen_NvDecomp is C07's
+   table (gen/nv_decomp.py, regenerated in this check as well); its rows are re-decided
+   here by C07's exact decision procedure (K32 arithmetic, vm_compute), the C08 block
+   table is shown to consist of exactly those sequences (roles mapped to C07's wires),
+   and block soundness follows for EVERY state space carrying a functorial action of
+   exact matrices on lists of qubit ids (laws act_mul / act_id / act_phase / act_embed:
+   composition, identity, global phase, locality), up to the equivalence qeq. *)
+Theorem C08_c07_rows : forall r, In r gen_rows -> row_spec r.
+Proof. exact (rows_ok_sound gen_rows ltac:(vm_compute; reflexivity)). Qed.
+
+Theorem C08_tables_agree_with_C07 : tables_agree gen_tables gen_rows = true.
+Proof. vm_compute. reflexivity. Qed.
+
+Section OperatorSemantics.
+  Variable QS : Type.
+  Variable qeq : QS -> QS -> Prop.
+  Variable act : list Z -> mat -> QS -> QS.
+  Variable rot_op crot_op : QMat.axis -> Z -> Z -> mat.
+  Variable other : event -> QS -> QS.
+  Hypothesis qeq_refl : forall a, qeq a a.
+  Hypothesis qeq_sym : forall a b, qeq a b -> qeq b a.
+  Hypothesis qeq_trans : forall a b d, qeq a b -> qeq b d -> qeq a d.
+  Hypothesis act_proper : forall W M a b, qeq a b -> qeq (act W M a) (act W M b).
+  Hypothesis other_proper : forall e a b, qeq a b -> qeq (other e a) (other e b).
+  Hypothesis act_mul : forall W A B psi, NoDup W ->
+    dims_ok (2 ^ List.length W) (2 ^ List.length W) A = true ->
+    dims_ok (2 ^ List.length W) (2 ^ List.length W) B = true ->
+    qeq (act W (mmul B A) psi) (act W B (act W A psi)).
+  Hypothesis act_id : forall W psi, NoDup W -> qeq (act W (mid (2 ^ List.length W)) psi) psi.
+  Hypothesis act_phase : forall W p M psi, NoDup W ->
+    dims_ok (2 ^ List.length W) (2 ^ List.length W) M = true ->
+    qeq (act W (mscale (kw p) M) psi) (act W M psi).
+  Hypothesis act_embed : forall W ws G psi, NoDup W -> embed_ok (List.length W) ws G = true ->
+    qeq (act W (embed (List.length W) ws G) psi) (act (map (fun i => nth i W 0) ws) G psi).
+  Hypothesis rot_exact : forall a n d k, half_units n d = Some k -> rot_op a n d = rot_k a k.
+  Hypothesis crot_exact : forall a n d k, half_units n d = Some k -> crot_op a n d = crot_k a k.
+  Hypothesis rot_angle_only : forall a n d, 0 <= d <= 4 -> rot_op a (n * 2 ^ (4 - d)) 4 = rot_op a n d.
+
+  Theorem C08_blocks_sound : forall debug hw,
+    blocks_sound QS qeq (apply_ev QS act rot_op crot_op other (cfg debug hw)) (cfg debug hw).
+  Proof.
+    intros debug hw.
+    exact (blocks_sound_from_rows QS qeq act rot_op crot_op other (cfg debug hw) qeq_refl qeq_sym qeq_trans
+             act_proper other_proper act_mul act_id act_phase act_embed rot_exact crot_exact rot_angle_only
+             gen_rows C08_c07_rows C08_tables_agree_with_C07).
+  Qed.
+
+  (* the quantum half without the block-soundness hypothesis *)
+  Theorem C08_transpile_simulates_quantum_c07 : forall env debug hw p p' s0 fuel pcf sf psi,
+    transpile (cfg debug hw) p = Ok p' -> scratch_fresh (cfg debug hw) p -> trace s0 = [] ->
+    tracked_run env (cfg debug hw) p fuel 0 s0 = true ->
+    run env p fuel 0 s0 = (Halted, pcf, sf) ->
+    exists fuel' pcf' sf',
+      run env (erase p') fuel' 0 s0 = (Halted, pcf', sf') /\
+      agree (clobbered (cfg debug hw) p) (regs sf) (regs sf') /\ arrs sf = arrs sf' /\ script sf = script sf' /\
+      qeq (run_q QS (apply_ev QS act rot_op crot_op other (cfg debug hw)) (trace sf') psi)
+          (run_q QS (apply_ev QS act rot_op crot_op other (cfg debug hw)) (trace sf) psi).
+  Proof.
+    intros env debug hw p p' s0 fuel pcf sf psi.
+    exact (transpile_simulates_quantum_c07 QS qeq act rot_op crot_op other (cfg debug hw) qeq_refl qeq_sym qeq_trans
+             act_proper other_proper act_mul act_id act_phase act_embed rot_exact crot_exact rot_angle_only
+             gen_rows env p p' s0 fuel pcf sf psi C08_c07_rows C08_tables_agree_with_C07).
+  Qed.
+End OperatorSemantics.
+
+(* the laws are consistent (a degenerate instance: one-point state space, with the
+   exact rotation matrices as rot_op / crot_op); the intended instance — state vectors
+   with the standard action of operators on tensor factors — is linear algebra that is
+   not formalised here *)
+Definition rot_op0 (a : QMat.axis) (n d : Z) : mat :=
+  match half_units n d with Some k => rot_k a k | None => [] end.
+Definition crot_op0 (a : QMat.axis) (n d : Z) : mat :=
+  match half_units n d with Some k => crot_k a k | None => [] end.
+Example C08_operator_laws_consistent :
+  (forall a n d k, half_units n d = Some k -> rot_op0 a n d = rot_k a k) /\
+  (forall a n d k, half_units n d = Some k -> crot_op0 a n d = crot_k a k) /\
+  (forall a n d, 0 <= d <= 4 -> rot_op0 a (n * 2 ^ (4 - d)) 4 = rot_op0 a n d) /\
+  (forall debug hw, blocks_sound unit eq (apply_ev unit (fun _ _ x => x) rot_op0 crot_op0 (fun _ x => x) (cfg debug hw))
+                                 (cfg debug hw)).
+Proof.
+  assert (R1 : forall a n d k, half_units n d = Some k -> rot_op0 a n d = rot_k a k)
+    by (intros a n d k H; unfold rot_op0; rewrite H; reflexivity).
+  assert (R2 : forall a n d k, half_units n d = Some k -> crot_op0 a n d = crot_k a k)
+    by (intros a n d k H; unfold crot_op0; rewrite H; reflexivity).
+  assert (R3 : forall a n d, 0 <= d <= 4 -> rot_op0 a (n * 2 ^ (4 - d)) 4 = rot_op0 a n d).
+  { intros a n d Hd. unfold rot_op0.
+    assert (H : half_units (n * 2 ^ (4 - d)) 4 = half_units n d).
+    { unfold half_units. replace (4 - 4) with 0 by reflexivity. rewrite Z.pow_0_r, Z.mul_1_r.
+      assert (P : 0 < 2 ^ (4 - d)) by (apply Z.pow_pos_nonneg; [reflexivity | apply Zle_minus_le_0; apply Hd]).
+      replace (0 <=? d) with true by (symmetry; apply Z.leb_le; apply Hd).
+      replace (d <=? 4) with true by (symmetry; apply Z.leb_le; apply Hd).
+      replace (0 <=? n * 2 ^ (4 - d)) with (0 <=? n); [reflexivity|].
+      destruct (Z.leb_spec 0 n) as [Hn|Hn]; symmetry.
+      - apply Z.leb_le. apply Z.mul_nonneg_nonneg; [exact Hn | apply Z.lt_le_incl; exact P].
+      - apply Z.leb_gt. apply Z.mul_neg_pos; assumption. }
+    rewrite H. reflexivity. }
+  split; [exact R1|]. split; [exact R2|]. split; [exact R3|].
+  intros debug hw. apply C08_blocks_sound; try exact R1; try exact R2; try exact R3;
+    intros; try reflexivity; try congruence.
+Qed.
+
 (* ---- non-vacuity: a program with a loop around a carbon-carbon gate, a conditional
    whose label is just past the end, a measurement and an array store meets every
    hypothesis (checked by computation), so the theorem applies to it *)
@@ -187,6 +290,8 @@ Qed.
 Print Assumptions C08_transpile_simulates.
 Print Assumptions C08_transpile_simulates_prefix.
 Print Assumptions C08_transpile_simulates_quantum.
+Print Assumptions C08_transpile_simulates_quantum_c07.
+Print Assumptions C08_blocks_sound.
 Print Assumptions C08_retarget_hits_block_start.
 Print Assumptions C08_end_target_gets_noop.
 Print Assumptions C08_non_gates_keep_order.
